@@ -112,22 +112,40 @@ def target_output(mb, rec, data, viol=None, inp=None):
   return stats_copy, out, qt
 
 
-def hash_batch(seed, n):
+THR = 'AI_EDGE_QUANTIZER_VERIF_LARGE_MODEL_THRESHOLD'
+
+
+def hash_batch(seed, n, reverse=False):
+  """hashes of n outputs (list in case order).  Every 4th case goes through the
+  large-model serialiser (threshold hook).  [reverse] evaluates the cases in the
+  opposite order: the bytes must not depend on what the process did before."""
   rng = random.Random(seed * 86028121 + 23)
-  hs = []
-  while len(hs) < n:
+  cases = []
+  while len(cases) < n:
     c = make_case(rng)
-    if c is None:
-      continue
-    mb, rec, data = c
-    _, out, _ = target_output(mb, rec, data)
-    hs.append('raise:' + type(out).__name__ if isinstance(out, Exception) else sha(out))
+    if c is not None:
+      cases.append(c)
+  hs = [None] * n
+  order = list(range(n))
+  if reverse:
+    order.reverse()
+  for i in order:
+    mb, rec, data = cases[i]
+    if i % 4 == 3:
+      os.environ['AI_EDGE_QUANTIZER_VERIF'] = '1'
+      os.environ[THR] = '-1'
+    try:
+      _, out, _ = target_output(mb, rec, data)
+    finally:
+      os.environ.pop(THR, None)
+    hs[i] = 'raise:' + type(out).__name__ if isinstance(out, Exception) else sha(out)
   return hs
 
 
 def main():
   if sys.argv[1] == '--hash-batch':
-    print('HASHES ' + json.dumps(hash_batch(int(sys.argv[2]), int(sys.argv[3]))))
+    print('HASHES ' + json.dumps(hash_batch(int(sys.argv[2]), int(sys.argv[3]),
+                                            reverse=len(sys.argv) > 4 and sys.argv[4] == 'reverse')))
     return
   out_path = sys.argv[1]
   tier = os.environ.get('VERIF_TIER', 'quick')
@@ -144,9 +162,9 @@ def main():
   for hs in (['1', '2', '3'] if tier == 'thorough' else ['1', '2']):
     env = dict(os.environ, PYTHONHASHSEED=hs)
     children.append((hs, subprocess.Popen(
-        [sys.executable, os.path.abspath(__file__), '--hash-batch', str(seed), str(n_hash)],
+        [sys.executable, os.path.abspath(__file__), '--hash-batch', str(seed), str(n_hash)] +
+        (['reverse'] if hs == '2' else []),       # one child evaluates the batch in the opposite order
         stdout=subprocess.PIPE, stderr=subprocess.DEVNULL, text=True, env=env)))
-  ref_hashes = hash_batch(seed, n_hash)
   # ---- (1) + (2) ----
   rng = random.Random(seed * 67867967 + 29)
   others = []     # other Quantizer objects kept alive and used in between
@@ -159,6 +177,12 @@ def main():
     mb, rec, data = c
     inp = {'recipe': rec if len(json.dumps(rec)) < 3000 else 'long', 'model_hex': mb.hex() if len(mb) < 30000 else None}
     dist['cases'] += 1
+    os.environ.pop(THR, None)
+    if rng.random() < 0.25:
+      os.environ['AI_EDGE_QUANTIZER_VERIF'] = '1'
+      os.environ[THR] = '-1'
+      dist['large_model_path_histories'] += 1
+      inp = dict(inp, large_model_path=True)
     stats, out, qt_fresh = target_output(mb, rec, data, viol, inp)
     ref = 'raise:' + type(out).__name__ if isinstance(out, Exception) else sha(out)
     if not isinstance(out, Exception):
@@ -233,6 +257,11 @@ def main():
                    f'Quantizer returns {ref[:16]} for equal (model, recipe, statistics)', 'input': inp})
     if len(samples) < 3:
       samples.append({'history': hist, 'sha256': ref[:16], 'n_rules': len(rec)})
+  os.environ.pop(THR, None)
+  # the reference batch of THIS process is computed AFTER all the histories above
+  # (the children compute theirs first thing in a fresh process)
+  ref_hashes = hash_batch(seed, n_hash)
+  dist['hash_batch_large_model_path'] = len([i for i in range(n_hash) if i % 4 == 3])
   # ---- collect children ----
   for hs, p in children:
     try:
